@@ -237,18 +237,25 @@ fn run_c04(case: &Value, id: &str, _rng: &mut Rng) -> Value {
         req_headers.push(Header::from_bytes(&b"TE"[..], te.as_bytes()).unwrap());
     }
     let data = body(len);
-    let resp = Response::new(
-        StatusCode(status),
-        vec![Header::from_bytes(&b"X-App"[..], &b"v"[..]).unwrap()],
-        PieceReader {
-            data: data.clone(),
-            pos: 0,
-            piece,
-        },
-        if declared { Some(len) } else { None },
-        None,
-    )
-    .with_chunked_threshold(thr);
+    let reader = PieceReader {
+        data: data.clone(),
+        pos: 0,
+        piece,
+    };
+    let xapp = Header::from_bytes(&b"X-App"[..], &b"v"[..]).unwrap();
+    let resp = if case["route"].as_str() == Some("tmpl") {
+        // a template with its own (different) body, re-used with new data
+        Response::from_string("a template body of some other length")
+            .with_data(reader, if declared { Some(len) } else { None })
+            .with_status_code(status)
+            .with_header(xapp)
+            .with_chunked_threshold(thr)
+            .boxed()
+    } else {
+        Response::new(StatusCode(status), vec![xapp], reader, if declared { Some(len) } else { None }, None)
+            .with_chunked_threshold(thr)
+            .boxed()
+    };
     let mut out = Vec::new();
     let r = resp.raw_print(&mut out, ver, &req_headers, head, None);
     // the client sees these bytes followed by the next response on the same connection
@@ -544,10 +551,9 @@ pub fn main_fn(args: &[String]) {
         }));
         let o = match r {
             Ok(o) => o,
-            Err(_) => {
-                eprintln!("TOOL-ERROR case {} panicked in the driver or the library: {}", id, line);
-                std::process::exit(2);
-            }
+            // a panic while a response is being built / printed is an observation (the judge reports it), not a
+            // failure of the tooling: the drivers only call the library on in-memory data
+            Err(_) => json!({"prop": prop, "id": id, "case": case, "panicked": true}),
         };
         writeln!(out, "{}", o).unwrap();
         n += 1;
